@@ -416,10 +416,12 @@ def run_prop(prop, tier, seed):
     if prop == "C07":
         fails += transient_error_probes(rep)
         fails += concurrent_close_probe(rep)
+        fails += scope_over_handle_probe(rep)
     if prop == "C08":
         fails += shared_iterator_oracle(rep, rng, tier)
         fails += scope_object_probes(rep)
         fails += shared_consumption_probe(rep)
+        fails += scope_over_handle_probe(rep)
     if not proofs_ok:
         rep.violation("proof-broken", {"broken": rep.notes.get("broken_file", "?"), "log": rep.notes.get("build_log_tail", "")[-1500:]}, no_input=True)
     return rep.finish()
@@ -643,6 +645,54 @@ def shared_consumption_probe(rep):
         if got != want:
             fails += 1
             rep.violation("scoped:shared-consumption", {"tool": "groupby %r" % (script,), "why": "(observations, what is left for the next tool): asyncstdlib %r, itertools on a shared iterator %r" % (got, want)})
+    return fails
+
+
+def scope_over_handle_probe(rep):
+    """C07/C08, directed: a scope over a *borrowed handle* protects that handle like any other iterator: closing the scoped
+    iterator (directly, via iter(), by a closing tool) inside the block does not close the handle it was made from; leaving
+    the block closes neither the handle's owner nor -- for a borrowed handle, whose aclose is its own business -- anything
+    beyond what the scope took"""
+    fails = 0
+    for how in ("direct", "iter", "tool"):
+        for kind in ("close", "send", "gen"):
+            u = make_u(kind, [Obj(j + 1, j) for j in range(8)])
+            real = u.g if kind == "gen" else u
+            got = {}
+
+            async def go():
+                b = a.borrow(real)
+                got["b0"] = (await b.__anext__()).id
+                async with a.scoped_iter(b) as s_:
+                    got["s0"] = (await s_.__anext__()).id
+                    if how == "direct":
+                        await s_.aclose()
+                    elif how == "iter":
+                        await a.iter(s_).aclose()
+                    else:
+                        got["tool"] = [x.id async for x in a.islice(s_, 1)]
+                    try:
+                        got["b1"] = (await b.__anext__()).id      # the handle the scope was made from is still alive
+                    except StopAsyncIteration:
+                        got["b1"] = "stop"
+                try:
+                    got["u_after"] = (await real.__anext__()).id  # and so is the underlying iterator, for its owner
+                except StopAsyncIteration:
+                    got["u_after"] = "stop"
+            try:
+                drive(go())
+                nxt = 3 + (1 if how == "tool" else 0)
+                why = None
+                if got.get("b1") != nxt:
+                    why = "after closing the scoped iterator (%s) the borrowed handle it was made from gave %r, expected item %d" % (how, got.get("b1"), nxt)
+                elif got.get("u_after") != nxt + 1:
+                    why = "the underlying iterator gave its owner %r afterwards, expected item %d" % (got.get("u_after"), nxt + 1)
+            except BaseException as e:  # noqa
+                why = "failed with %r (%r)" % (e, got)
+            rep.count(("scope-over-handle", how, kind), True)
+            if why:
+                fails += 1
+                rep.violation("borrow:scope-over-handle", {"closed": how, "underlying": kind, "observed": repr(got), "why": why})
     return fails
 
 
